@@ -217,6 +217,9 @@ def reference(lineage, chain):
                                % (status, val))
         memo[key] = val
     _st.setdefault('refs_used', {})[key] = core.digest(memo[key])[:16]
+    if core.H('refsample', key) % 40 == 0:
+        _st.setdefault('ref_samples', {})[key] = [lineage, chain,
+                                                  core.digest(memo[key])[:16]]
     return memo[key]
 
 
@@ -525,6 +528,7 @@ def _trim(out):
 
 def execute_spec(spec):
     _st['refs_used'] = {}
+    _st['ref_samples'] = {}
     h = History(spec).run()
     return h.viols, h.log.digest(), h
 
@@ -712,6 +716,7 @@ def run_task(task):
             'opsdigest': core.digest(spec['ops'])[:16],
             'global_digests': sorted(d[:12] for d in h.global_digests),
             'refs': dict(_st.get('refs_used') or {}),
+            'ref_samples': dict(_st.get('ref_samples') or {}),
             'nontrivial': h.stats['compared'] >= 1 and h.stats['ops'] >= 2,
             'faulted': bool(spec['config']['fault_kinds']),
             'sample': {'config': spec['config'], 'ops': spec['ops'][:12],
@@ -794,6 +799,36 @@ def cross_cell(cells, prop):
         v['spec'] = {'property': PROP, 'ops': [], 'note': 'see detail.key'}
         v['run'] = 'cross-cell'
     return viols[:3]
+
+
+def fresh_value(doc):
+    """Run in a genuinely new interpreter (no fork shortcut): compute one
+    reference chain in-process."""
+    libops.quiet()
+    state = _ref_setup_any(doc['lineage'])
+    return core.digest(_ref_chain_any(state, doc['chain']))[:16]
+
+
+def post_check(results, tier, run_fresh):
+    """Validate the fork shortcut: a sample of reference values is
+    recomputed in genuinely new interpreters under another hash seed."""
+    samples = {}
+    for r in results:
+        samples.update(r.get('ref_samples') or {})
+    keys = sorted(samples)
+    k = 8 if tier == 'quick' else 48
+    step = max(1, len(keys) // k)
+    chosen = keys[::step][:k]
+    docs = [{'lineage': samples[key][0], 'chain': samples[key][1]}
+            for key in chosen]
+    got = run_fresh(docs)
+    for key, val in zip(chosen, got):
+        if val != samples[key][2]:
+            raise RuntimeError(
+                'fork shortcut invalid: reference %s is %s in a forked '
+                'zygote child but %s in a new interpreter'
+                % (key[:200], samples[key][2], val))
+    return [], {'reference_values_revalidated_in_new_interpreters': len(chosen)}
 
 
 def shrink(spec, signature):
